@@ -27,14 +27,54 @@ CHECK = Check(
 MARGIN = 1e-6
 
 
-def _check_frame(ctx, d, i, run):
+class Adapter3D:
+    view = staticmethod(MG.view)
+    mgr_criteria = staticmethod(MG.mgr_criteria)
+    crit_criteria = staticmethod(MG.crit_criteria)
+
+    @staticmethod
+    def tp_scores(e, g):
+        return MG.ref_plane_distance(e, g)
+
+    @staticmethod
+    def better(v, thr):
+        return v < thr
+
+    @staticmethod
+    def pos(o):
+        return o["p"]
+
+    score_name = "plane distance"
+
+
+class Adapter2D:
+    view = staticmethod(MG.view2d)
+    mgr_criteria = staticmethod(MG.mgr_criteria2d)
+    crit_criteria = staticmethod(MG.crit_criteria2d)
+
+    @staticmethod
+    def tp_scores(e, g):
+        return [MG.roi_iou(e["roi"], g["roi"])]
+
+    @staticmethod
+    def better(v, thr):
+        return v > thr
+
+    @staticmethod
+    def pos(o):
+        return (o["cam"], o["roi"])
+
+    score_name = "ROI IoU"
+
+
+def _check_frame(ctx, d, i, run, A=Adapter3D):
     f = d["frames"][i]
     res = run["results"][i]
     gts_in = run["gt_frames"][i].objects
     ests_in = run["est_lists"][i]
     pf = res.pass_fail_result
-    mc, cc = MG.mgr_criteria(d), MG.crit_criteria(d, f["crit"])
-    fpv = d["task"] == "fp_validation"
+    mc, cc = A.mgr_criteria(d), A.crit_criteria(d, f["crit"])
+    fpv = d["task"].startswith("fp_validation")
 
     tp, fp, fn, tn = pf.tp_object_results, pf.fp_object_results, pf.fn_objects, pf.tn_objects
     obj_results = res.object_results
@@ -101,17 +141,17 @@ def _check_frame(ctx, d, i, run):
         ctx.require(ML.compatible(d["policy"], e["label"], g["label"]), "tp-label-incompatible", lambda: f"frame {i}: TP pairs {e['label']} with {g['label']} under {d['policy']}")
         if f["pf"] is not None and g["label"] in d["targets"]:
             thr = f["pf"][d["targets"].index(g["label"])]
-            vals = MG.ref_plane_distance(e, g)
+            vals = A.tp_scores(e, g)
             if any(abs(v - thr) <= MARGIN for v in vals):
                 ctx.boundary()
             else:
-                ctx.require(any(v < thr for v in vals), "tp-beyond-threshold", lambda: f"frame {i}: TP est #{a}/GT #{b} plane distance {vals} >= threshold {thr} of label {g['label']}")
+                ctx.require(any(A.better(v, thr) for v in vals), "tp-beyond-threshold", lambda: f"frame {i}: TP est #{a}/GT #{b} {A.score_name} {vals} does not beat the threshold {thr} of label {g['label']}")
 
     # ---- nothing outside the critical region is counted; the critical GT set is exactly the filtered one -----
     exp_gt, skip = [], False
     for j, g in enumerate(f["gt"]):
-        k1, m1 = RF.keep_object(MG.view(g), True, {k: mc.get(k) for k in RF.GT_KEYS})
-        k2, m2 = RF.keep_object(MG.view(g), True, {k: cc.get(k) for k in RF.GT_KEYS})
+        k1, m1 = RF.keep_object(A.view(g), True, {k: mc.get(k) for k in RF.GT_KEYS})
+        k2, m2 = RF.keep_object(A.view(g), True, {k: cc.get(k) for k in RF.GT_KEYS})
         if min(m1, m2) < MARGIN:
             skip = True
         if k1 and k2:
@@ -123,23 +163,23 @@ def _check_frame(ctx, d, i, run):
     for a in res_est:
         if a is None:
             continue
-        k, m = RF.keep_object(MG.view(f["est"][a]), False, {k_: cc.get(k_) for k_ in RF.EST_KEYS})
-        k0, m0 = RF.keep_object(MG.view(f["est"][a]), False, {k_: mc.get(k_) for k_ in RF.EST_KEYS})
+        k, m = RF.keep_object(A.view(f["est"][a]), False, {k_: cc.get(k_) for k_ in RF.EST_KEYS})
+        k0, m0 = RF.keep_object(A.view(f["est"][a]), False, {k_: mc.get(k_) for k_ in RF.EST_KEYS})
         if min(m, m0) < MARGIN:
             ctx.boundary()
             continue
-        ctx.require(k and k0, "estimate-outside-critical-region-counted", lambda: f"frame {i} ({d['frame']}): estimate #{a} at {f['est'][a]['p']} label {f['est'][a]['label']} is counted but fails the {'critical' if not k else 'manager'} filter")
+        ctx.require(k and k0, "estimate-outside-critical-region-counted", lambda: f"frame {i} ({d['frame']}): estimate #{a} at {A.pos(f['est'][a])} label {f['est'][a]['label']} is counted but fails the {'critical' if not k else 'manager'} filter")
 
     # ---- completeness: the counted results are exactly the matcher's output restricted to the region -----
     if not skip:
         est_keep, eskip = [], False
         for a, e in enumerate(f["est"]):
-            k0, m0 = RF.keep_object(MG.view(e), False, {k_: mc.get(k_) for k_ in ("targets", "ignore", "max_x", "max_y", "max_d", "min_d", "conf")})
+            k0, m0 = RF.keep_object(A.view(e), False, {k_: mc.get(k_) for k_ in ("targets", "ignore", "max_x", "max_y", "max_d", "min_d", "conf")})
             if m0 < MARGIN:
                 eskip = True
             if k0:
                 est_keep.append(a)
-        gt_keep = [j for j, g in enumerate(f["gt"]) if RF.keep_object(MG.view(g), True, {k: mc.get(k) for k in RF.GT_KEYS})[0]]
+        gt_keep = [j for j, g in enumerate(f["gt"]) if RF.keep_object(A.view(g), True, {k: mc.get(k) for k in RF.GT_KEYS})[0]]
         if eskip:
             ctx.boundary()
         else:
@@ -154,13 +194,13 @@ def _check_frame(ctx, d, i, run):
                 target_labels=D.labels(d["targets"]),
                 matching_label_policy=D.policy(d["policy"]),
                 matchable_thresholds=d["mgr"].get("radii"),
-                transforms=run["gt_frames"][i].transforms,
+                transforms=run["gt_frames"][i].transforms if A is Adapter3D else None,
             )
             exp_pairs, pskip = set(), False
             for r in ref:
                 a = ei(r.estimated_object)
                 b = gi(r.ground_truth_object) if r.ground_truth_object is not None else None
-                k, m = RF.keep_result(MG.view(f["est"][a]), MG.view(f["gt"][b]) if b is not None else None, cc)
+                k, m = RF.keep_result(A.view(f["est"][a]), A.view(f["gt"][b]) if b is not None else None, cc)
                 if m < MARGIN:
                     pskip = True
                 if k:
@@ -173,7 +213,7 @@ def _check_frame(ctx, d, i, run):
 
     # ---- classification ------------------------------------------------------------------------
     has_fp_gt = any(g["label"] == "false_positive" for g in f["gt"])
-    removed = len(crit_idx) < sum(1 for g in f["gt"] if RF.keep_object(MG.view(g), True, {k: mc.get(k) for k in RF.GT_KEYS})[0])
+    removed = len(crit_idx) < sum(1 for g in f["gt"] if RF.keep_object(A.view(g), True, {k: mc.get(k) for k in RF.GT_KEYS})[0])
     if tp and fp and fn:
         ctx.cls("tp_fp_fn_frame")
     if has_fp_gt:
@@ -202,3 +242,22 @@ def _body(ctx, d):
 @CHECK.given("manager_frames", lambda tier: MG.manager_cases(tier), quick=220, thorough=8000)
 def manager_frames(ctx, d):
     _body(ctx, d)
+
+
+# ---- 2D pipeline (detection2d / tracking2d / fp_validation2d; IoU2D pass/fail) --------------------
+
+
+def _body2d(ctx, d):
+    run = MG.run_case2d(ctx, d)
+    if run is None:
+        return
+    ctx.cls("task_" + d["task"])
+    nt = False
+    for i in range(len(d["frames"])):
+        nt = _check_frame(ctx, d, i, run, Adapter2D) or nt
+    ctx.mark_nontrivial(nt)
+
+
+@CHECK.given("manager_frames2d", lambda tier: MG.manager_cases2d(tier), quick=150, thorough=6000)
+def manager_frames2d(ctx, d):
+    _body2d(ctx, d)
